@@ -165,6 +165,35 @@ func Candidates(l Local, s Sess, pol Policy, pfx gen.P, a Attr) (cands []Attr, m
 	return cands, mask, ""
 }
 
+// ExportForm is the projection a path would be advertised with on the session if it were admitted (first admissible
+// variant, rewrites before policy); it is used to tell whether a session transforms a path at all.
+func ExportForm(l Local, s Sess, pol Policy, pfx gen.P, a Attr) Attr {
+	w := Rewrite(l, s, a)
+	pre := a.Clone()
+	if a.Static {
+		pre = Attr{ID: a.ID, Static: true, NextHop: StaticNHBase + a.ID}
+	}
+	vs := variants(s, w)
+	v := vs[0]
+	if s.Kind == IBGPRR && !w.RRRequired {
+		v = vs[1] // bio-rd adds the RR attributes whenever the target is a client
+	}
+	out, _, _ := pol.Eval(pfx, v.apply(l, s, pre), route.BGPPathType, true)
+	return out
+}
+
+// Transform names what exporting does to path a on the session: "static" (redistributed), "rewritten" (some
+// attribute changes) or "same".
+func Transform(l Local, s Sess, pol Policy, pfx gen.P, a Attr) string {
+	if a.Static {
+		return "static"
+	}
+	if len(a.DiffFields(ExportForm(l, s, pol, pfx, a), AllFields)) > 0 {
+		return "rewritten"
+	}
+	return "same"
+}
+
 // MatchObserved decides whether the observed projection is one the statement admits for Loc-RIB path a.
 // It returns "" or the list of differing fields against the closest candidate.
 func MatchObserved(l Local, s Sess, a Attr, obs Attr, cands []Attr, mask []string) (diff []string, closest Attr) {
